@@ -102,7 +102,7 @@ pub fn op(c: &mut Cur, dim: usize, classes: u8, adversarial_uuid: bool, extreme:
         0 => Op::Insert { p: point_spec(c, dim, extreme), stats: c.bool(), uuid: uuid_spec(c, adversarial_uuid) },
         1 => Op::Remove { v: c.u16(), unknown: c.below(10) == 0 },
         2 => match c.below(6) {
-            0 => Op::FlipK1Insert { cell: c.sel(), w: (0..=dim).map(|_| c.below(8) as u8).collect() },
+            0 => Op::FlipK1Insert { cell: c.sel(), w: (0..=dim).map(|_| c.below(8) as u8).collect(), uuid: uuid_spec(c, adversarial_uuid) },
             1 => Op::FlipK1Remove { v: c.sel() },
             2 => Op::FlipK2 { cell: c.sel(), facet: facet(c) },
             3 => Op::FlipK3 { cell: c.sel(), a: facet(c), b: c.below(6) as u8 },
